@@ -9,7 +9,7 @@ CONSTANTS
   ExpTimes <- NNone
   Exps <- NNone
   Configs <- NNone
-  MaxOps = 3
+  MaxOps = 2
   LocalID <- NLocal
   PeerIDs <- L0Peers
   DataKeys <- L0Data
@@ -23,8 +23,8 @@ CONSTANTS
   NodeConfigs <- L0Configs
   Targets <- L0Targets
   Limits <- L0Limits
-  Orig <- NNone
+  Orig <- OrigPurge
 VIEW nview
-INVARIANTS NodeTypeOK CachesOK GhostAgrees ObsLawsHold
-PROPERTIES NodeStepLawsProp
+INVARIANTS NodeTypeOK Purged Purged2 CachesOK GhostAgrees ObsLawsHold
+PROPERTIES NodeStepLawsProp TTLHonouredProp
 CHECK_DEADLOCK FALSE
